@@ -224,6 +224,24 @@ def run_case(case):
             v('c07-units', 'after a change of units (observations x 2^%s, states x 2^%s) the result is not the posterior any more: mean off by %.3e, '
               'covariance by %.3e, whitened innovation by %.3e (in the original units)' % (dz, dx, dxs.max(), dPs.max(), dws.max()))
         stats['unit_changes'] = stats.get('unit_changes', 0) + 1
+    # the same array objects with new contents (a caller that refills preallocated buffers): nothing may be
+    # remembered by object identity.  Scalings by powers of two, the reference is the same call on fresh copies.
+    xa, Pa, za, Ha, Ra = (a.copy() for a in (x, P, z, H, R))
+    try:
+        kalman.correct(xa, Pa, za, Ha, Ra)
+        Ra *= 4.0
+        Pa *= 0.25
+        za *= -0.5
+        Ha *= 2.0
+        xa *= 0.5
+        got = kalman.correct(xa, Pa, za, Ha, Ra)
+        ref = kalman.correct(xa.copy(), Pa.copy(), za.copy(), Ha.copy(), Ra.copy())
+        if any(np.shape(g) != np.shape(r_) or (np.asarray(g) != np.asarray(r_)).any() for g, r_ in zip(got, ref)):
+            v('c07-same-objects-new-contents', 'correct called again with the same array objects refilled in place differs from '
+              'the call on fresh copies of the same values (max diff %.3e)'
+              % max(float(np.abs(np.asarray(g) - np.asarray(r_)).max()) for g, r_ in zip(got, ref)))
+    except np.linalg.LinAlgError as ex_:
+        v('c07-linalg-error', 'correct raised LinAlgError on rescaled inputs: %s' % ex_)
     # order independence over independent blocks (block-diagonal R)
     n_orders = 0
     if case['R'] == 'diag' and m > 1:
